@@ -305,8 +305,17 @@ def eval_budget(job, only=None):
         lows = collections.Counter(m['name'].lower() for m in merchants)
         twins = [m for m in merchants if lows[m['name'].lower()] > 1]
         res['stats']['explain_merchant_case_twins'] += len(twins)
-        order = twins + [m for m in pri + rest if m not in twins]
-        for m in order[:max(2, min(len(twins), 6))]:
+        # merchants that two rules with different category/subcategory/pattern produce: what analyze_transactions reports
+        # for them depends on transaction order (category of the LAST, rule of the FIRST transaction)
+        var = collections.defaultdict(set)
+        for ps in tb['per_source']:
+            for row in ps.get('rows', []):
+                var[row[2]].add(row[3])
+        multi = [m for m in merchants if len(var.get(m['name'], ())) > 1 or m['count'] > 1 and m in pri]
+        res['stats']['explain_merchant_order_sensitive'] += len([m for m in merchants if len(var.get(m['name'], ())) > 1])
+        order = twins + [m for m in multi if m not in twins] + [m for m in pri + rest if m not in twins and m not in multi]
+        limit = 8 if spec.get('ask_all') else max(2, min(len(twins) + len(multi), 6))
+        for m in order[:limit]:
             ex = B.explain_json(cfg, m['name'])
             res['n_cli'] += 1
             res['stats']['explain_merchant'] += 1
@@ -538,6 +547,19 @@ def corpus():
                                     'merchant': '', 'tags': [], 'let': [], 'field': [], 'priority': None})
     b_data = bud(['Ordered'], supp=[row('2025-02-07', 'Book', 100)])
     b_data['rules']['rules'].append(books)
+    # one merchant name produced by two rules with different category, file order != date order (newest-first export,
+    # two sources with interleaving dates): by_merchant takes the category of the LAST and the rule of the FIRST transaction
+    b_new = bud(['Costco Big', 'Costco'])
+    b_new['sources'][0]['rows'] = [row('2025-03-10', 'COSTCO WHSE', 1200), row('2025-02-02', 'NETFLIX.COM', 62), row('2025-01-05', 'COSTCO WHSE', 200)]
+    b_new['ask_all'] = True
+    b_two = bud(['Costco Big', 'Costco', 'Fuel'])
+    b_two['rules']['rules'].append({'name': 'Parking', 'match': 'contains("PARKING")', 'category': 'Transport', 'subcategory': 'Parking',
+                                    'merchant': 'Gas Station', 'tags': [], 'let': [], 'field': [], 'priority': None})
+    b_two['sources'][0]['rows'] = [row('2025-01-05', 'COSTCO WHSE', 1200), row('2025-03-01', 'COSTCO WHSE', 100), row('2025-02-20', 'CITY PARKING', 40)]
+    second = card([row('2025-02-01', 'COSTCO WHSE', 2000), row('2025-01-20', 'COSTCO GAS', 90), row('2025-04-01', 'SHELL OIL 5521', 120)])
+    second['name'], second['file'] = 'Bank', 'data/bank.csv'
+    b_two['sources'].append(second)
+    b_two['ask_all'] = True
     b_case = bud(['ZED MART', 'COFFEE', 'Coffee'])     # merchants whose names differ only in letter case
     b_case['sources'][0]['rows'] += [row('2025-04-01', 'ZED MART', 200), row('2025-04-02', 'ZED MART', 40),
                                      row('2025-04-03', 'COFFEE ROASTERS', 30), row('2025-04-04', 'SQ *COFFEE HUT', 18)]
@@ -552,6 +574,8 @@ def corpus():
         (bud(['Ordered'], supp=[row('2025-02-07', 'Book', 100)]), [{'desc': 'AMZN MKTP US ZQ7', 'amount': 25.0}]),   # supplemental rows + data
         (b_data, [{'desc': 'AMZN MKTP 4411 ZQ7', 'amount': 25.0}]),                                          # supplemental data only
         (b_case, [{'desc': 'ZED MART ZQ7', 'amount': 50.0}]),
+        (b_new, [{'desc': 'COSTCO WHSE ZQ7', 'amount': 300.0}]),
+        (b_two, [{'desc': 'CITY PARKING ZQ7', 'amount': 10.0}]),
         (bud([], kind='csv', csv=[B.CSV_POOL[9], ['SHOP', 'Shop', 'Shopping', 'Misc', '']]), [{'desc': 'MYSTERY SHOP ZQ7', 'amount': 150.0}]),
     ]
 
